@@ -1948,7 +1948,8 @@ Proof. intro H. unfold take. rewrite N.min_l by exact H. unfold blen in *. rewri
 
 Lemma check_part_cases s c0 base b us crc comp plain' pend' :
   in_chunk s c0 base -> 0 < crc ->
-  (exists e s', check_part lo s b us crc comp (rd plain' pend' false) = (Some e, s'))
+  (exists e s', check_part lo s b us crc comp (rd plain' pend' false) = (Some e, s')
+                /\ (e = EEOF -> pend' = Some EEOF \/ (pend' = None /\ plain' = [])))
   \/ (exists data extra s',
         plain' = data ++ extra /\ us = blen data /\ crc32 data = crc
         /\ check_part lo s b us crc comp (rd plain' pend' false) = (None, s')
@@ -1957,7 +1958,9 @@ Lemma check_part_cases s c0 base b us crc comp plain' pend' :
 Proof.
   intros [Hc Hb] Hpos.
   destruct (N.ltb_spec (blen plain') us) as [Hs | Hs].
-  { left. destruct (check_part_short lo s b us crc comp plain' pend' Hs) as (s' & E). eexists; eexists; exact E. }
+  { left. destruct (check_part_short lo s b us crc comp plain' pend' Hs) as (s' & E). eexists; eexists; split; [exact E|].
+    destruct pend' as [pe|]; cbn [short_err]; [intros ->; left; reflexivity|].
+    destruct plain'; [right; split; reflexivity | discriminate]. }
   set (data := take us plain'). set (extra := drop us plain').
   assert (Hsplit : plain' = data ++ extra) by (symmetry; apply take_drop).
   assert (Hus : us = blen data) by (symmetry; apply blen_take; exact Hs).
@@ -1967,7 +1970,7 @@ Proof.
   assert (Hfin : forall s0 : lstate, lx_chunk s0 <> None -> lx_base s0 = base ->
      (exists e s', (if negb (crc32 data =? crc) then (Some EInvalidChunkCrc, s0)
         else (None, (if is_lazy lo comp then s0 <| lx_base := {| r_buf := drop (blen data) (r_buf b); r_end := r_end b; r_seek := r_seek b |} |> else s0)
-                     <| lx_chunk := Some {| r_buf := data; r_end := None; r_seek := true |} |>)) = (Some e, s'))
+                     <| lx_chunk := Some {| r_buf := data; r_end := None; r_seek := true |} |>)) = (Some e, s') /\ e <> EEOF)
      \/ (exists s', crc32 data = crc /\
           (if negb (crc32 data =? crc) then (Some EInvalidChunkCrc, s0)
         else (None, (if is_lazy lo comp then s0 <| lx_base := {| r_buf := drop (blen data) (r_buf b); r_end := r_end b; r_seek := r_seek b |} |> else s0)
@@ -1977,16 +1980,17 @@ Proof.
   { intros s0 _ Hb0. destruct (N.eqb_spec (crc32 data) crc) as [Ec | Ec]; cbn [negb].
     - right. eexists. split; [exact Ec|]. split; [reflexivity|].
       destruct (is_lazy lo comp); split; cbn; auto.
-    - left. eexists; eexists; reflexivity. }
+    - left. eexists; eexists; split; [reflexivity | discriminate]. }
   destruct (is_lz4 comp).
-  - destruct extra as [|x extra]; destruct pend' as [pe|]; try (left; eexists; eexists; reflexivity).
+  - destruct extra as [|x extra]; destruct pend' as [pe|];
+      try (left; eexists; eexists; split; [reflexivity|]; first [discriminate | intros ->; left; reflexivity]).
     destruct (Hfin (s <| lx_chunk := Some (rd [] None false) |> <| lx_chunk := Some {| r_buf := []; r_end := None; r_seek := false |} |>))
-      as [(e & s' & E) | (s' & Ec & E & Hin)]; try (cbn; congruence); try (cbn; assumption).
-    + left. exists e, s'. exact E.
+      as [(e & s' & E & Hne) | (s' & Ec & E & Hin)]; try (cbn; congruence); try (cbn; assumption).
+    + left. exists e, s'. split; [exact E | intro; contradiction].
     + right. exists data, [], s'. repeat split; try assumption; apply Hin.
   - destruct (Hfin (s <| lx_chunk := Some (rd extra pend' false) |>))
-      as [(e & s' & E) | (s' & Ec & E & Hin)]; try (cbn; congruence); try (cbn; assumption).
-    + left. exists e, s'. exact E.
+      as [(e & s' & E & Hne) | (s' & Ec & E & Hin)]; try (cbn; congruence); try (cbn; assumption).
+    + left. exists e, s'. split; [exact E | intro; contradiction].
     + right. exists data, extra, s'. repeat split; try assumption; apply Hin.
 Qed.
 
@@ -2007,7 +2011,7 @@ Theorem C07_chunk_general_thm pre k post recs' sk :
   forall fuel, (file_steps lo ds items + 1 <= fuel)%nat ->
   let r := lex_all lo ds fuel (src_of (render items') sk) in
   (exists st, r = Ok (file_events lo ds items, EEOF, st))
-  \/ (exists e st, r = Ok (file_events lo ds pre, e, st))
+  \/ (exists e st, r = Ok (file_events lo ds pre, e, st) /\ (e = EEOF -> codec_reports_eof lo ds k recs'))
   \/ (lo_emit_invalid lo = true /\ lextends (file_events lo ds pre ++ [EvInvalidChunk]) r)
   \/ crc_collision lo ds k recs'.
 Proof.
@@ -2042,7 +2046,7 @@ Proof.
   set (src := src_of _ sk) in *.
   set (P := fun r : lres =>
      (exists st, r = Ok (evall, EEOF, st))
-     \/ (exists e st, r = Ok (evpre, e, st))
+     \/ (exists e st, r = Ok (evpre, e, st) /\ (e = EEOF -> codec_reports_eof lo ds k recs'))
      \/ (lo_emit_invalid lo = true /\ lextends (evpre ++ [EvInvalidChunk]) r)
      \/ crc_collision lo ds k recs').
   change (P (lex_all lo ds fuel src)).
@@ -2053,7 +2057,7 @@ Proof.
   destruct (damaged_chunk_load s0 k recs' _ None sk Htop0 Wk Hemit Hv Hlen) as (s1 & s'' & Hhead & Hin & Hload).
   set (cs := chunk_stream lo ds (k_comp k) recs' None) in *.
   destruct (check_part_cases s'' _ _ (rd (recs' ++ rest) None sk) (k_usize k) (k_crc k) (k_comp k) (fst cs) (snd cs) Hin)
-    as [(e & s3 & Hcp) | (data & extra & s3 & Hsplit & Husd & Hcrcd & Hcp & Hin3)]; [lia| |].
+    as [(e & s3 & Hcp & Heof) | (data & extra & s3 & Hsplit & Husd & Hcrcd & Hcp & Hin3)]; [lia| |].
   - (* an error of loadChunk *)
     rewrite Hcp in Hload.
     pose proof (chunk_error_step s0 s1 _ _ s3 Hhead Hload Wlen Hemit) as Hstep.
@@ -2063,7 +2067,7 @@ Proof.
       intros r Hr. right. right. left. split; [exact Hinv | exact Hr].
     + eapply (runs_end lo ds _ _ s0 s3 _ [] e).
       * intros f evs. rewrite app_nil_r. apply Hstep.
-      * rewrite app_nil_r. right. left. exists e, s3. reflexivity.
+      * rewrite app_nil_r. right. left. exists e, s3. split; [reflexivity|]. exact Heof.
   - (* the decompressed bytes pass the CRC check *)
     destruct (list_eq_dec Byte.byte_eq_dec data (frames inner)) as [Hsame | Hdiff].
     + (* same bytes: the read is identical *)
@@ -2287,3 +2291,174 @@ Proof.
   - unfold attach_obs. cbn [ao_computed ao_parsed]. rewrite Hacrc. repeat split. congruence.
 Qed.
 End Flip.
+
+(* ====================================================================== *)
+(** * 9. a small concrete file (non-vacuity of the theorems above) *)
+
+(* the identity codec: only consulted for compressed chunks *)
+Definition ds_id : doracle := fun _ avail pend => (avail, pend).
+
+Definition ex_lopts (validate emit_invalid : bool) (cb : cbmode) : lopts :=
+  {| lo_skip_magic := false; lo_validate := validate; lo_compute_acrc := true; lo_emit_chunks := false;
+     lo_emit_invalid := emit_invalid; lo_max_record := 0; lo_max_chunk := 0; lo_cb := cb; lo_custom := [] |}.
+
+Definition ex_m1 : bytes := enc_message {| m_chan := 1; m_seq := 2; m_log := 3; m_pub := 4; m_data := [x61; x62] |}.
+Definition ex_m2 : bytes := enc_message {| m_chan := 1; m_seq := 3; m_log := 5; m_pub := 6; m_data := [] |}.
+Definition ex_inner : list (byte * bytes) := [(OpMessage, ex_m1); (OpMessage, ex_m2)].
+Definition ex_k : chunk :=
+  {| k_start := 3; k_end := 5; k_usize := blen (frames ex_inner); k_crc := crc32 (frames ex_inner);
+     k_comp := []; k_records := frames ex_inner |}.
+Definition ex_att : attachment :=
+  {| a_log := 7; a_create := 8; a_name := [x6e]; a_media := [x6d; x6d]; a_size := 3; a_data := [] |}.
+Definition ex_adata : bytes := [x01; x02; x03].
+Definition ex_acrc : N := crc32 (enc_attachment_fields ex_att ++ ex_adata).
+Definition ex_pre : list item := [IMagic; IRec OpHeader (enc_header {| h_profile := []; h_library := [x6c] |})].
+Definition ex_mid : list item := [IRec x81 [x00; x01]].
+Definition ex_post : list item := [IRec OpDataEnd (u32 0); IFooter 0 0 0; IMagic].
+Definition ex_items : list item := ex_pre ++ IChunk ex_k :: ex_mid ++ IAttach ex_att ex_adata ex_acrc :: ex_post.
+
+Lemma ex_wf_chunk validate emit_invalid cb : wf_chunk_item (ex_lopts validate emit_invalid cb) ds_id ex_k.
+Proof.
+  split; [repeat split; reflexivity|]. split; [reflexivity|].
+  cbn [lo_emit_chunks ex_lopts]. split; [reflexivity|]. split; [reflexivity|]. split; [reflexivity|].
+  exists ex_inner. split; [reflexivity|]. split; [reflexivity|]. split.
+  - repeat apply Forall_cons; try apply Forall_nil; (repeat split; try discriminate; reflexivity).
+  - split; [right; reflexivity|]. intros _. split; [reflexivity|]. split; [reflexivity|]. discriminate.
+Qed.
+
+Lemma ex_wf_attach validate emit_invalid cb :
+  cb = CbNone \/ cb = CbFull -> wf_attach_item (ex_lopts validate emit_invalid cb) ex_att ex_adata ex_acrc.
+Proof.
+  intro Hcb. unfold wf_attach_item. repeat split; try reflexivity; exact Hcb.
+Qed.
+
+Lemma ex_wf_file validate emit_invalid cb :
+  cb = CbNone \/ cb = CbFull -> wf_file (ex_lopts validate emit_invalid cb) ds_id ex_items.
+Proof.
+  intro Hcb.
+  exists [IRec OpHeader (enc_header {| h_profile := []; h_library := [x6c] |}); IChunk ex_k; IRec x81 [x00; x01];
+          IAttach ex_att ex_adata ex_acrc; IRec OpDataEnd (u32 0); IFooter 0 0 0].
+  split; [reflexivity|].
+  repeat apply Forall_cons; try apply Forall_nil.
+  - repeat split; try discriminate; reflexivity.
+  - apply ex_wf_chunk.
+  - repeat split; try discriminate; reflexivity.
+  - apply ex_wf_attach, Hcb.
+  - repeat split; try discriminate; reflexivity.
+  - repeat split; reflexivity.
+Qed.
+
+Lemma ds_id_prefix_ok : codec_prefix_ok ds_id.
+Proof.
+  intros comp payload plain j H Hj. unfold ds_id in *. inversion H; subst.
+  exists j, None. split; [reflexivity | discriminate].
+Qed.
+
+(* lex_render on the example, all four combinations of validate / callback, both source kinds *)
+Example ex_lex_render :
+  forall validate sk cb, cb = CbNone \/ cb = CbFull ->
+  exists st, lex_all (ex_lopts validate false cb) ds_id 20 (src_of (render ex_items) sk)
+             = Ok (file_events (ex_lopts validate false cb) ds_id ex_items, EEOF, st).
+Proof.
+  intros validate sk cb Hcb. apply lex_render_thm; [apply ex_wf_file, Hcb|].
+  destruct Hcb as [-> | ->]; vm_compute; lia.
+Qed.
+
+Example ex_events :
+  file_events (ex_lopts true false CbFull) ds_id ex_items =
+  [EvToken OpHeader (enc_header {| h_profile := []; h_library := [x6c] |});
+   EvToken OpMessage ex_m1; EvToken OpMessage ex_m2;
+   EvAttachment (attach_obs (ex_lopts true false CbFull) ex_att ex_adata ex_acrc);
+   EvToken OpDataEnd (u32 0);
+   EvToken OpFooter (enc_footer {| f_summary_start := 0; f_summary_offset_start := 0; f_crc := 0 |})].
+Proof. vm_compute. reflexivity. Qed.
+
+(* C09: cut inside the second message of the chunk (streaming): header and first message are
+   delivered, then the read stops with an error *)
+Example ex_cut_in_chunk :
+  exists st, lex_all (ex_lopts false false CbFull) ds_id 30 (src_of (firstn 120 (render ex_items)) false)
+  = Ok ([EvToken OpHeader (enc_header {| h_profile := []; h_library := [x6c] |}); EvToken OpMessage ex_m1], ETruncated, st).
+Proof. eexists. vm_compute. reflexivity. Qed.
+
+(* the same cut with CRC validation: nothing of the incomplete chunk is delivered *)
+Example ex_cut_in_chunk_validating :
+  exists st, lex_all (ex_lopts true false CbFull) ds_id 30 (src_of (firstn 120 (render ex_items)) false)
+  = Ok ([EvToken OpHeader (enc_header {| h_profile := []; h_library := [x6c] |})], EUnexpectedEOF, st).
+Proof. eexists. vm_compute. reflexivity. Qed.
+
+(* cut inside the attachment data: the callback sees 1 of 3 data bytes and both CRC accessors fail *)
+Example ex_cut_in_attachment :
+  exists st ob, lex_all (ex_lopts true false CbFull) ds_id 30 (src_of (firstn 195 (render ex_items)) false)
+  = Ok ([EvToken OpHeader (enc_header {| h_profile := []; h_library := [x6c] |});
+         EvToken OpMessage ex_m1; EvToken OpMessage ex_m2; EvAttachment ob], EEOF, st)
+  /\ ao_data ob = [x01] /\ ao_size ob = 3 /\ ao_parsed ob = Err EOther /\ ao_computed ob = Err EOther.
+Proof. eexists. eexists. split; [vm_compute; reflexivity|]. repeat split. Qed.
+
+Example ex_C09_hyps :
+  wf_file (ex_lopts false false CbFull) ds_id ex_items /\ codec_prefix_ok ds_id
+  /\ (120 < length (render ex_items))%nat
+  /\ (file_steps (ex_lopts false false CbFull) ds_id ex_items + 3 <= 30)%nat.
+Proof. split; [apply ex_wf_file; right; reflexivity|]. split; [exact ds_id_prefix_ok|]. split; vm_compute; lia. Qed.
+
+(* C07: one byte of the chunk payload replaced *)
+Definition ex_p1 : bytes := firstn 10 (k_records ex_k).
+Definition ex_b : byte := nth 10 (k_records ex_k) x00.
+Definition ex_p2 : bytes := skipn 11 (k_records ex_k).
+Definition ex_b' : byte := xff.
+Definition ex_items_damaged : list item :=
+  ex_pre ++ IChunk (with_records ex_k (ex_p1 ++ ex_b' :: ex_p2)) :: ex_mid ++ IAttach ex_att ex_adata ex_acrc :: ex_post.
+
+Example ex_C07_chunk_hyps emit_invalid :
+  wf_file (ex_lopts true emit_invalid CbFull) ds_id (ex_pre ++ IChunk ex_k :: ex_mid ++ IAttach ex_att ex_adata ex_acrc :: ex_post)
+  /\ k_comp ex_k = [] /\ mem_bytes [] (lo_custom (ex_lopts true emit_invalid CbFull)) = false /\ k_crc ex_k <> 0
+  /\ k_records ex_k = ex_p1 ++ ex_b :: ex_p2 /\ ex_b <> ex_b'
+  /\ blen (ex_p1 ++ ex_b' :: ex_p2) = blen (k_records ex_k).
+Proof.
+  split; [apply (ex_wf_file true emit_invalid CbFull); right; reflexivity|].
+  repeat split; try reflexivity; vm_compute; discriminate.
+Qed.
+
+Example ex_C07_chunk_error :
+  exists st, lex_all (ex_lopts true false CbFull) ds_id 30 (src_of (render ex_items_damaged) false)
+  = Ok ([EvToken OpHeader (enc_header {| h_profile := []; h_library := [x6c] |})], EInvalidChunkCrc, st).
+Proof. eexists. vm_compute. reflexivity. Qed.
+
+Example ex_C07_chunk_marker :
+  exists st, lex_all (ex_lopts true true CbFull) ds_id 30 (src_of (render ex_items_damaged) false)
+  = Ok ([EvToken OpHeader (enc_header {| h_profile := []; h_library := [x6c] |}); EvInvalidChunk;
+         EvAttachment (attach_obs (ex_lopts true true CbFull) ex_att ex_adata ex_acrc);
+         EvToken OpDataEnd (u32 0);
+         EvToken OpFooter (enc_footer {| f_summary_start := 0; f_summary_offset_start := 0; f_crc := 0 |})], EEOF, st).
+Proof. eexists. vm_compute. reflexivity. Qed.
+
+(* without validation the same damage goes unnoticed by the lexer: the altered bytes are delivered *)
+Example ex_C07_not_validating :
+  exists st body, lex_all (ex_lopts false false CbNone) ds_id 30 (src_of (render ex_items_damaged) false)
+  = Ok ([EvToken OpHeader (enc_header {| h_profile := []; h_library := [x6c] |});
+         EvToken OpMessage body; EvToken OpMessage ex_m2;
+         EvToken OpDataEnd (u32 0);
+         EvToken OpFooter (enc_footer {| f_summary_start := 0; f_summary_offset_start := 0; f_crc := 0 |})], EEOF, st)
+  /\ body <> ex_m1.
+Proof. eexists. eexists. split; [vm_compute; reflexivity|]. vm_compute. discriminate. Qed.
+
+(* C07: one data byte of the attachment replaced *)
+Example ex_C07_attachment_hyps :
+  wf_file (ex_lopts true false CbFull) ds_id ((ex_pre ++ IChunk ex_k :: ex_mid) ++ IAttach ex_att ex_adata ex_acrc :: ex_post)
+  /\ ex_acrc = crc32 (enc_attachment_fields ex_att ++ ex_adata)
+  /\ att_content_flip ex_att ex_adata (att_with ex_att (a_log ex_att) (a_create ex_att) (a_name ex_att) (a_media ex_att)) [x01; xff; x03].
+Proof.
+  split; [rewrite <- app_assoc; apply (ex_wf_file true false CbFull); right; reflexivity|].
+  split; [reflexivity|].
+  apply (ACF_data ex_att ex_adata [x01] x02 xff [x03]); [reflexivity | discriminate].
+Qed.
+
+Example ex_C07_attachment_mismatch :
+  exists st ob c1 c2,
+    lex_all (ex_lopts true false CbFull) ds_id 30
+      (src_of (render ((ex_pre ++ IChunk ex_k :: ex_mid) ++ IAttach ex_att [x01; xff; x03] ex_acrc :: ex_post)) false)
+    = Ok ([EvToken OpHeader (enc_header {| h_profile := []; h_library := [x6c] |});
+           EvToken OpMessage ex_m1; EvToken OpMessage ex_m2; EvAttachment ob;
+           EvToken OpDataEnd (u32 0);
+           EvToken OpFooter (enc_footer {| f_summary_start := 0; f_summary_offset_start := 0; f_crc := 0 |})], EEOF, st)
+    /\ ao_computed ob = Ok c1 /\ ao_parsed ob = Ok c2 /\ c1 <> c2.
+Proof. eexists. eexists. eexists. eexists. split; [vm_compute; reflexivity|]. repeat split. vm_compute. discriminate. Qed.
